@@ -121,7 +121,7 @@ def run(facts, cg):
                 sinks_ = _payload_sinks(b, uses, us)
                 if sinks_ and all(x == 'format' for x in sinks_) and b.q not in LOGGED_ONLY_REVIEWED:
                     finding('R-ERR', b, 'err-logged-only:%s' % how.split('::')[-1], 'the error of the Result produced at %s (%s) is only logged; the function carries on as if it had succeeded' % (loc, how))
-            if not whole_moves and not err_payload and not refs and ok_payload:
+            if not whole_moves and not err_payload and not refs and ok_payload and not _err_arm_fails(b, l):
                 finding('R-ERR', b, 'err-arm-ignored:%s' % how.split('::')[-1], 'the Err case of the Result produced at %s (%s) is matched away without using the error' % (loc, how))
         # ---- Results nested in Option / Poll (stream items): `while let Some(Ok(x)) = s.next().await` ends the loop on an
         #      error item and carries on as if the stream had ended
@@ -166,6 +166,28 @@ def run(facts, cg):
     if not roots or n_results < 50:
         findings.append({'rule': 'R-ERR', 'key': 'R-ERR|floor', 'function': '-', 'what': 'entry points not found / too few Result values (cannot decide)'})
     return instances, findings
+
+
+def _err_arm_fails(b, l):
+    """`match r { Ok(v) => .., Err(_) => return Err(other) }`: the error is replaced, not swallowed - every way out of the
+    Err arm leaves the function with an error"""
+    from .r_steps import exit_outcomes_from
+    found = False
+    for bi in b.live:
+        sw = b.blocks[bi]['term']
+        if sw['k'] != 'switch' or sw['op']['k'] not in ('copy', 'move') or sw['op']['pl']['p']:
+            continue
+        for d_ in b.defs().get(sw['op']['pl']['l'], []):
+            if d_[0] == 'assign' and d_[1]['rv']['k'] == 'discr' and d_[1]['rv']['pl']['l'] == l and not d_[1]['rv']['pl']['p']:
+                tgt = dict(zip(sw['vals'], sw['targets'])).get(1)
+                if tgt is None:
+                    tgt = sw['otherwise'] if 0 in sw['vals'] else None
+                if tgt is None:
+                    return False
+                if not (exit_outcomes_from(b, tgt) <= {'Err'}):
+                    return False
+                found = True
+    return found
 
 
 VIEWS = ('core::result::Result::as_ref', 'core::result::Result::as_mut', 'core::result::Result::as_deref',
